@@ -15,7 +15,7 @@ fn corpus() -> Vec<&'static str> {
          "\"abc", "#\\", "#(1 2", "(a . )", ")", "#u8(300)", "1e", "#x", "a)b",
          "\"\u{e9}\\x01\"", "\"\u{e9}\\xff\"", "\"\\x01\u{e9}\"", "\"\u{e9}\\001\"", "\"a\u{e9}\\nb\"", "\"\\u00e9\\xff\"", "\"\u{e9}\\x01\u{e9}\"", "\"\\351\u{e9}\"", "\"\u{e9}\\^A\"", "\"\\M-a \u{e9}\"", "\"\u{3bb}\\n\"", "\"\u{3bb}\\x41\"", "(\"\u{1f600}\\101\" \"\\x80\")",
          "#\\newline #\\tab #\\backspace #\\nul #\\delete #\\alarm #\\return #\\escape", "#\\tab", "#\\\u{3bb} ?\u{3bb}", "\u{e9}t\u{e9} (\u{1f600})",
-         "(18446744073709551616)", "184467440737095516160 x", "18446744073709551616.5", "#xFFFFFFFFFFFFFFFFF y", "(1 99999999999999999999999e3 2)", "#:foo", "(#:k :k k:)", "?a", "#(#:a)", "-18446744073709551617", "(123456789012345678901234567890 . a)"]
+         "(18446744073709551616)", "184467440737095516160 x", "18446744073709551616.5", "#xFFFFFFFFFFFFFFFFF y", "(1 99999999999999999999999e3 2)", "#:foo", "(#:k :k k:)", "1e-5 2.5e+3", "(1E+2 -7e-1)", "#d1e+2", "1.5e-3x", "?a", "#(#:a)", "-18446744073709551617", "(123456789012345678901234567890 . a)"]
 }
 
 struct Sched { data: Vec<u8>, pos: usize, chunk: usize, interrupt_every: usize, calls: usize, fail_at: Option<usize>, fail_kind: io::ErrorKind }
